@@ -291,6 +291,76 @@ func runC18(h *H) {
 		}
 	}
 
+	// history: ENABLE UTF8=ACCEPT, then UNAUTHENTICATE (RFC 8437: the enabled extensions are
+	// reset): afterwards 8-bit strings must again go out as literals, not as UTF-8 quoted strings
+	{
+		cfg := capCfg{"IMAP4rev1 ENABLE UTF8=ACCEPT UNAUTHENTICATE", true}
+		peer := newPeer("* OK [CAPABILITY " + cfg.Caps + "] ready\r\n")
+		peer.ContDelay = 5 * time.Millisecond
+		peer.OnCommand = func(p *scriptedPeer, c *peerCmd) {
+			switch {
+			case c.Name == "ENABLE":
+				p.Send("* ENABLED UTF8=ACCEPT\r\n" + c.Tag + " OK done\r\n")
+			case c.Name == "CAPABILITY":
+				p.Send("* CAPABILITY " + cfg.Caps + "\r\n" + c.Tag + " OK done\r\n")
+			case c.Name == "LOGIN" || c.Name == "UNAUTHENTICATE":
+				p.Send(c.Tag + " OK [CAPABILITY " + cfg.Caps + "] done\r\n")
+			case c.Name == "SEARCH":
+				p.Send("* SEARCH\r\n" + c.Tag + " OK done\r\n")
+			default:
+				p.Send(c.Tag + " OK done\r\n")
+			}
+		}
+		client, _ := peer.dialClient(nil)
+		if err := client.WaitGreeting(); err != nil {
+			h.Fail("greeting", err.Error(), cfg)
+		} else {
+			steps := []struct {
+				name    string
+				enabled bool
+				run     func() error
+			}{
+				{"LOGIN", false, func() error { return client.Login("u", "p").Wait() }},
+				{"ENABLE", false, func() error { _, err := client.Enable(imap.CapUTF8Accept).Wait(); return err }},
+				{"CREATE-8bit-enabled", true, func() error { return client.Create("bôx", nil).Wait() }},
+				{"UNAUTHENTICATE", true, func() error { return client.Unauthenticate().Wait() }},
+				{"LOGIN-8bit-after-unauthenticate", false, func() error { return client.Login("rené", "päss").Wait() }},
+				{"SEARCH-8bit-after-unauthenticate", false, func() error {
+					_, err := client.Search(&imap.SearchCriteria{Body: []string{"café"}}, nil).Wait()
+					return err
+				}},
+				{"ENABLE-again", false, func() error { _, err := client.Enable(imap.CapUTF8Accept).Wait(); return err }},
+				{"CREATE-8bit-enabled-again", true, func() error { return client.Create("bôx2", nil).Wait() }},
+			}
+			for _, st := range steps {
+				desc := map[string]interface{}{"caps": cfg.Caps, "history_step": st.name, "utf8_enabled_before": st.enabled}
+				h.InFlight(desc)
+				before := len(peer.Commands())
+				var err error
+				if !withTimeout(5*time.Second, func() { err = st.run() }) {
+					h.Fail("client-hang:"+st.name, st.name+" did not return", desc)
+					break
+				}
+				if err != nil {
+					h.Fail("command-error:"+st.name, fmt.Sprintf("%s: %v", st.name, err), desc)
+				}
+				for _, c := range peer.Commands()[before:] {
+					for _, b := range checkLegal(capCfg{cfg.Caps, st.enabled}, c) {
+						desc["sent"] = string(c.Raw)
+						h.Fail("illegal-output:"+strings.SplitN(b, ":", 2)[0]+":after-unauthenticate", fmt.Sprintf("%s under [%s], UTF8=ACCEPT enabled=%v at that point: %s", st.name, cfg.Caps, st.enabled, b), desc)
+					}
+				}
+				h.Eval("unauth-history|" + st.name)
+				h.Hist("cmd:history-" + st.name)
+			}
+			for _, v := range peer.Violations() {
+				h.Fail("literal-sync", v, map[string]interface{}{"caps": cfg, "history": "enable-unauthenticate"})
+			}
+		}
+		withTimeout(3*time.Second, func() { client.Close() })
+		peer.Close()
+	}
+
 	// third pass: the server refuses only the FIRST literal of a command with two string
 	// arguments; the command fails, nothing of it may follow, and the next literal-bearing
 	// command must get its own continuation request (none may be left over for the dead command)
